@@ -3,4 +3,4 @@ From PV Require Import Lib.ExtBase C05.Model.
 Extraction "model.ml" ext_base_z ext_base_n ext_base_nat ext_base_res ext_base_list
   Path PathOr clean join2 baseOf dirOf dec attachmentName attachmentOutputPath attachmentOutputPaths
   attachmentReservationPath writeAttachments nameTooLong imageFileName fontFileName bookmarkFileName
-  multiFillCSVName gobFileName classRange decode encode.
+  multiFillCSVName metadataFileName splitAlongBookmarks stagedTooLong gobFileName classRange decode encode.
